@@ -10,6 +10,7 @@ import Neutrino.Lemmas.Subs
 import Neutrino.Lemmas.SubsIso
 import Neutrino.Lemmas.SubsDrain
 import Neutrino.Lemmas.SubsWindow
+import Neutrino.Lemmas.SubsReg
 import Neutrino.Spec.Subs
 import Neutrino.Gen.Subs
 namespace Neutrino.Subs
@@ -210,6 +211,57 @@ theorem C11_source_facts :
     Gen.Subs.cancelSeq = ["s.ntfnQueue.Stop()", "close(s.quit)", "s.wg.Wait()", "close(s.ntfnChan)"] ∧
     Gen.Subs.closeChanSites = 1 ∧ chanCap = Gen.Subs.ntfnChanCap := by decide
 
+/-! ### The handler never waits for a client — the registration reply included
+
+`Model/SubsReg.lean` opens the atomic `subscribe` step up into request / lookup / reply and lets
+the caller of `NewSubscription` leave at any moment after `Stop` has closed the quit channel.  The
+reply channel's capacity is the one regenerated from the source (`Gen.Subs.replyChanCap`) and the
+handler sends one reply per request (`Gen.Subs.replySendSites`). -/
+
+/-- **The handler never blocks on a client.**  In every interleaving of the handshake — the caller
+giving up before the handler has taken the request, while it is inside the backlog lookup, between
+lookup and reply, or never — the handler is never parked on its reply. -/
+theorem C11_handler_never_blocks_on_client (evs : List Reg.Ev) :
+    (Reg.run Gen.Subs.replyChanCap Reg.init evs).h ≠ .blocked :=
+  (Reg.inv_run _ (by decide) _ evs Reg.inv_init).notBlocked
+
+/-- **Stop completes during a registration.**  From every reachable state of the handshake, once
+`Stop` has closed the quit channel the handler's own moves (finish the lookup, send the reply,
+take the quit case) end with the handler gone, so `Stop`'s wait for it ends — whatever the caller
+has done or left undone. -/
+theorem C11_stop_completes_during_registration (evs : List Reg.Ev) :
+    Reg.stopReturns (Reg.run Gen.Subs.replyChanCap Reg.init
+      (evs ++ [.quitClose, .lookupDone, .reply, .handlerExit])) = true := by
+  rw [Reg.run_append]
+  simp only [Reg.stopReturns, beq_iff_eq]
+  exact Reg.exit_after_quit _ (by decide) _ (Reg.inv_run _ (by decide) _ evs Reg.inv_init)
+
+/-- **Isolation, extended to the registration reply.**  Once the handler has taken a request,
+deleting every event of the caller (its receiving the reply, its giving up) from any continuation
+leaves the handler where it is and the quit flag as it is: no move of the handler is enabled,
+disabled or delayed by what the caller does. -/
+theorem C11_reply_isolation (pre evs : List Reg.Ev)
+    (htaken : (Reg.run Gen.Subs.replyChanCap Reg.init pre).c ≠ .sending) :
+    (Reg.run Gen.Subs.replyChanCap Reg.init (pre ++ evs)).h =
+      (Reg.run Gen.Subs.replyChanCap Reg.init (pre ++ evs.filter (fun e => !e.ofClient))).h ∧
+    (Reg.run Gen.Subs.replyChanCap Reg.init (pre ++ evs)).quit =
+      (Reg.run Gen.Subs.replyChanCap Reg.init (pre ++ evs.filter (fun e => !e.ofClient))).quit := by
+  have hi := Reg.inv_run _ (by decide : 1 ≤ Gen.Subs.replyChanCap) _ pre Reg.inv_init
+  have h := Reg.sim_run _ (by decide : 1 ≤ Gen.Subs.replyChanCap) evs _ _
+    (Reg.Sim.mk rfl rfl hi hi htaken htaken)
+  rw [Reg.run_append, Reg.run_append]
+  exact ⟨h.hEq, h.qEq⟩
+
+/-- What an unbuffered reply channel does (the reason the capacity is a source fact): the caller
+leaves through the quit channel while the handler is inside the lookup, the handler then parks on
+its reply for ever and `Stop` never returns. -/
+theorem C11_unbuffered_reply_counterexample :
+    (Reg.run 0 Reg.init [.take, .quitClose, .clientGiveUp, .lookupDone, .reply, .handlerExit]).h = .blocked ∧
+    Reg.stopReturns (Reg.run 0 Reg.init [.take, .quitClose, .clientGiveUp, .lookupDone, .reply, .handlerExit]) = false := by
+  decide
+
+theorem C11_reply_source_facts : Gen.Subs.replyChanCap = 1 ∧ Gen.Subs.replySendSites = 1 := by decide
+
 /-! Non-vacuity: concrete runs meeting the hypotheses. -/
 
 private def n1 : Ntfn := ⟨1, true, 5⟩
@@ -247,5 +299,17 @@ example :
 /-- after stop, reads drain the channel and then report `closed` -/
 example : outs init [.subscribe 1 0 [n1, n2], .forward 1, .stop, .consume 1, .consume 1, .forward 1, .consume 1] =
     [.ok, .unit, .unit, .item n1, .closed, .unit, .closed] := by decide
+
+/-- the handshake when Stop overtakes a registration: the caller has given up, the handler is still in the
+lookup (hypothesis of `C11_reply_isolation` met), and the handler's remaining moves let Stop return -/
+example : (Reg.run Gen.Subs.replyChanCap Reg.init [.take, .quitClose, .clientGiveUp]).c = .gaveUp ∧
+    (Reg.run Gen.Subs.replyChanCap Reg.init [.take, .quitClose, .clientGiveUp]).h = .lookup ∧
+    Reg.stopReturns (Reg.run Gen.Subs.replyChanCap Reg.init
+      [.take, .quitClose, .clientGiveUp, .lookupDone, .reply, .handlerExit]) = true := by decide
+/-- a subscriber that never reads and is behind by more than its channel holds: open, nothing lost (the
+hypotheses of `C11_complete`, which has no bound on what has piled up) -/
+example :
+    let evs := [Ev.subscribe 1 0 []] ++ ((List.range 30).map fun i => [Ev.emit ⟨i, true, i⟩, .handlerFanout]).flatten
+    ((run init evs).subs 1).map (fun x => (x.closed, x.chan.length + x.queue.length)) = some (false, 30) := by decide
 
 end Neutrino.Subs
